@@ -36,6 +36,27 @@ Lemma jacobian_from_tangent (op : list expr) (J : list (list expr)) vals U u :
   Forall2 (fun e dv => is_derive (fun t => evalR (envR (line vals U) t) e) 0 dv) op (matvec (evm vals J) u).
 Proof. intros Hok E. rewrite <- E. apply derive_along_line; auto. Qed.
 
+
+(* the algebraic half of a Jacobian statement: the tangent part of the dual-number evaluation along
+   a direction that moves only the block off..off+d-1 is the matrix-vector product (no side condition) *)
+Definition tangent_ok (op : list expr) (J : list (list expr)) (n off d : nat) : Prop :=
+  forall vals u, length vals = n -> length u = d ->
+    map snd (evlD (combine vals (dir n off u)) op) = matvec (evm vals J) u.
+Lemma tangent_is_jacobian (side : list R -> Prop) op J n off d :
+  tangent_ok op J n off d ->
+  (forall vals u, length vals = n -> length u = d -> side vals -> List.Forall (okD (combine vals (dir n off u))) op) ->
+  is_jacobian_on side op J n off d.
+Proof.
+  intros Ht Hok vals u Hv Hu Hs. apply jacobian_from_tangent; [apply Hok; auto | apply Ht; auto].
+Qed.
+Lemma tangent_is_jacobian_poly op J n off d :
+  tangent_ok op J n off d -> forallb poly op = true -> is_jacobian op J n off d.
+Proof. intros Ht Hp. apply tangent_is_jacobian; auto. intros. apply poly_all; auto. Qed.
+
+Ltac tan_ring :=
+  let vals := fresh "vals" in let u := fresh "u" in let Hv := fresh "Hv" in let Hu := fresh "Hu" in
+  intros vals u Hv Hu; list_len vals Hv; list_len u Hu; ring_lists.
+
 (* rows of a compact Jacobian *)
 Definition rows_prefix (c : nat) (J Jc : list (list expr)) : Prop := Jc = firstn c J.
 Definition shape (r c : nat) (J : list (list expr)) : Prop := length J = r /\ List.Forall (fun row => length row = c) J.
